@@ -1,11 +1,152 @@
+//! C08 — the importer only commits the next unique block, atomically, in order,
+//! and announces each success exactly once, in height order, after the data is
+//! readable.
+//!
+//! Real `fuel_core_importer::Importer` over a real `fuel_core::database::Database<OnChain>`
+//! (in-memory store, RocksDB without and with history), whose data source is wrapped
+//! in a recording `TransactableStorage` (`store::RecStore`). `Validator`,
+//! `BlockVerifier` and `BlockReconciliationWritePort` are harness ports that follow a
+//! generated plan. See `seq.rs` (deterministic histories, per-call oracle) and
+//! `conc.rs` (2–4 tasks on a multi-thread runtime, offline oracle over the logs).
+
+mod conc;
+mod seq;
+mod store;
+mod util;
+
 use vcommon::*;
+
+pub fn sig(args: &Args, s: &str) -> String {
+    if args.extra.contains_key("selftest") {
+        format!("selftest:{s}")
+    } else {
+        s.to_string()
+    }
+}
+
+pub fn selftest(args: &Args) -> u32 {
+    args.extra
+        .get("selftest")
+        .and_then(|s| s.parse().ok())
+        .unwrap_or(0)
+}
+
+fn run_c08(args: &Args, report: &Report) {
+    if let Some(rep) = read_replay(args) {
+        let seed = rep.get("hist_seed").and_then(|v| v.as_u64()).unwrap_or(0);
+        match rep.get("mode").and_then(|v| v.as_str()).unwrap_or("seq") {
+            "conc" => {
+                for _ in 0..20 {
+                    conc::run_history(args, report, seed);
+                }
+            }
+            _ => seq::run_history(args, report, seed),
+        }
+        return;
+    }
+
+    let only = args.extra.get("only").cloned().unwrap_or_default();
+    // sequential, deterministic histories
+    let seq_shards = args.by_tier(32usize, 64);
+    let seq_per_shard = args.by_tier(20usize, 150);
+    if only != "conc" {
+        let a = args.clone();
+        let r = report.clone();
+        run_shards(report, args, seq_shards, move |_i, s| {
+            for it in 0..seq_per_shard {
+                let hs = mix(s, &[tag("seq"), it as u64]);
+                seq::run_history(&a, &r, hs);
+            }
+        });
+    }
+    // concurrent stress histories
+    let conc_shards = args.by_tier(16usize, 32);
+    let conc_per_shard = args.by_tier(8usize, 60);
+    if only != "seq" {
+        let a = args.clone();
+        let r = report.clone();
+        let mut a2 = args.clone();
+        // several multi-thread runtimes at once; keep the machine busy but not thrashing
+        a2.threads = (args.threads / 2).max(2);
+        run_shards(report, &a2, conc_shards, move |_i, s| {
+            for it in 0..conc_per_shard {
+                let hs = mix(s, &[tag("conc"), it as u64]);
+                conc::run_history(&a, &r, hs);
+            }
+        });
+    }
+
+    if selftest(args) == 0 && only.is_empty() {
+        let q = !args.is_thorough();
+        report.require("seq.histories", if q { 400 } else { 4000 });
+        report.require("seq.ops", if q { 10_000 } else { 100_000 });
+        report.require("seq.ok_imports", if q { 2_000 } else { 20_000 });
+        report.require("seq.failed_imports_db_compared", if q { 3_000 } else { 30_000 });
+        report.require("seq.announcements_checked", if q { 2_000 } else { 20_000 });
+        report.require("seq.ok.commit_result", 300);
+        report.require("seq.ok.execute_and_commit", 300);
+        report.require("seq.ok.genesis", 200);
+        for k in [
+            "height",
+            "not_unique",
+            "root_changed",
+            "genesis_on_nonempty",
+            "zero_height",
+            "verification",
+            "execution",
+            "reconciliation",
+            "storage",
+            "backpressure_timeout",
+            "execute_genesis",
+        ] {
+            report.require(&format!("seq.err.{k}"), 20);
+        }
+        for k in [
+            "next_dup_tx",
+            "dup_exact",
+            "dup_new_block",
+            "skip",
+            "stale",
+            "future_tx_then_used",
+        ] {
+            report.require(&format!("seq.target.{k}"), 20);
+        }
+        report.require("seq.fault.commit_fail.fired", 50);
+        report.require("seq.fault.multi_height_batch", 10);
+        report.require("seq.backend.memory", 100);
+        report.require("seq.backend.rocksdb", 20);
+        report.require("conc.histories", if q { 100 } else { 1000 });
+        report.require("conc.ok_imports", if q { 800 } else { 8000 });
+        report.require("conc.err.busy", 50);
+        report.require("conc.announcements_checked", if q { 800 } else { 8000 });
+        report.require("conc.overlapping_call_pairs", 100);
+    }
+}
 
 fn main() {
     let args = Args::parse();
     install_quiet_panic_hook();
     let report = Report::new(&args.property);
+    let mut rule = String::new();
+    let mut assumptions: Vec<&str> = vec![];
     match args.property.as_str() {
+        "C08" => {
+            run_c08(&args, &report);
+            rule = "sequential: a history is a seeded list of up to 36 importer calls (commit_result local/network, \
+                    execute_and_commit) with targets {next, duplicate, skipped, stale, zero, genesis, next-with-known-tx, \
+                    repeat} and port/storage faults; a history is non-trivial if it contains >=1 successful import after \
+                    >=1 failed import and >=1 injected fault; distinct = hash of (backend, list of (call, target, fault, \
+                    outcome class)). concurrent: 2-4 tasks racing commit calls over a pre-generated candidate chain; \
+                    distinct = hash of the interleaving of call/commit/return events."
+                .to_string();
+            assumptions = vec![
+                "storage reads through Database<OnChain> and raw column iteration of the backing store are trusted for dumps",
+                "the injected storage failure fails before touching the backend (models an atomic backend that rejects a batch)",
+                "only interleavings actually produced by the OS scheduler are judged in the concurrent mode",
+                "an import that returns Err counts as failed; Ok counts as successful (the return value is the boundary)",
+            ];
+        }
         other => report.inconclusive(format!("property {other} not implemented in this monitor")),
     }
-    report.finish(&args, "exploration", "", false, &[]);
+    report.finish(&args, "exploration", &rule, false, &assumptions);
 }
